@@ -21,7 +21,9 @@ CONSTANTS Variants,     \* "R2-RC4-40" "R3-RC4-56" "R3-RC4-128" "R4-RC4-128" "R4
           IdClasses,    \* "low" "gen" "high"   -> (id, gen)
           DictForms,    \* spelling of the key length in the Encrypt dictionary of a crypt-filter (V 4) document:
                         \* "plain" (CF /Length in bytes + /Length in bits), "cf-length-bits" (CF /Length in bits, as many writers do),
-                        \* "cf-no-length" (only the dictionary's /Length), "no-length" (neither: AESV2 is 128 bit by definition)
+                        \* "cf-no-length" (only the dictionary's /Length), "no-length" (neither: AESV2 is 128 bit by definition),
+                        \* "uo-padded" (revision 5 / 6: /U and /O padded with zero bytes to 127 bytes, as Acrobat writes them: the
+                        \* first 48 bytes count), "strf-identity" (V 4: /StrF /Identity - strings are stored as they are)
           Roots,        \* where the catalog and the page tree live: "object" | "objstm" (inside an encrypted object stream)
           Dev
 
@@ -49,7 +51,7 @@ StringPlaces == {"string-in-object", "string-bare", "string-in-array", "string-n
 Individually(pl) == pl \in StringPlaces \cup {"stream", "metadata-stream"}       \* encrypted with the object's own key
 \* strings inside an object stream are protected by the encryption of the container; the xref stream is never encrypted
 PlainStored == [m |-> "none", k |-> <<>>, pt |-> "plain"]
-Stored(pl, v, idgen, em) == IF Exempt(pl, em, v) \/ ~Individually(pl) THEN PlainStored ELSE Enc(Method(v), ObjKey(v, idgen), "plain")
+Stored(pl, v, idgen, em) == IF Exempt(pl, em, v) \/ ~Individually(pl) \/ (dform = "strf-identity" /\ pl \in StringPlaces) THEN PlainStored ELSE Enc(Method(v), ObjKey(v, idgen), "plain")
 
 \* ---------------------------------------------------------------- Mech
 \* Decoder::from_password: user check first, then owner unwrap + user check
@@ -64,6 +66,7 @@ Open ==
                       ELSE IF dform = "cf-length-bits" /\ pwrel = "owner" /\ "cf_bits_refused_for_owner" \in Dev THEN "err-open"
                       \* AESV2 without any /Length: a 40 bit default key does not verify
                       ELSE IF dform = "no-length" /\ "aesv2_defaults_to_40_bits" \in Dev THEN "err-password"
+                      ELSE IF dform = "uo-padded" /\ "uo_length_exact" \in Dev THEN "err-open"
                       ELSE "ok")
                 ELSE "err-password"
   /\ phase' = "read"
@@ -74,7 +77,8 @@ LibKey(v, idgen) == IF Method(v) = "AESV3" /\ "aesv3_key_truncated" \in Dev THEN
 
 \* does the library apply decryption at this place?
 LibDecrypts(pl, em, v) ==
-  CASE pl \in {"string-in-object", "string-bare", "stream"} -> TRUE
+  CASE dform = "strf-identity" /\ pl \in StringPlaces -> "strf_ignored" \in Dev      \* the string filter is the stream filter (as built)
+    [] pl \in {"string-in-object", "string-bare", "stream"} -> TRUE
     [] pl \in {"string-in-array", "string-nested"} -> "array_elements_not_decrypted" \notin Dev      \* the decryption context is handed down into containers
     [] pl = "metadata-stream" -> em \/ "metadata_exemption_ignored" \in Dev \/ (~HonoursFlag(v) /\ "metadata_flag_honoured_below_v4" \notin Dev)
     [] pl = "encrypt-dict-indirect" -> "encrypt_dict_decrypted" \in Dev
@@ -102,7 +106,9 @@ Init ==
   /\ root \in Roots /\ (root = "objstm" => variant # "R2-RC4-40" /\ place \notin {"encrypt-dict-direct"})
   /\ (place \in {"metadata-stream", "encrypt-dict-indirect", "encrypt-dict-direct", "xref-stream", "string-in-objstm"} => idc = "low")
   /\ dform \in DictForms
-  /\ (dform # "plain" => variant \in {"R4-RC4-128", "R4-AESV2"} /\ place \in {"string-in-object", "stream"} /\ len = "short" /\ idc = "low" /\ root = "object")
+  /\ (dform # "plain" => place \in {"string-in-object", "stream"} /\ len = "short" /\ idc = "low" /\ root = "object")
+  /\ (dform \notin {"plain", "uo-padded"} => variant \in {"R4-RC4-128", "R4-AESV2"})
+  /\ (dform = "uo-padded" => variant \in {"R5-AESV3", "R6-AESV3"})
   /\ (dform = "no-length" => variant = "R4-AESV2")
   /\ (place \in {"string-in-objstm", "xref-stream"} => variant \notin {"R2-RC4-40"}) \* object streams need PDF 1.5
   /\ phase = "open" /\ opened = "none" /\ answer = "none"
